@@ -573,6 +573,11 @@ pub fn deviations(base: &Case, max_wits: usize) -> Vec<Dev<Case>> {
             ("[spend0,spend1,spend2]", Some(vec![r0.clone(), r1.clone(), r2.clone()])),
             ("[spend1,spend2,mint0]", Some(vec![r1.clone(), r2.clone(), rm.clone()])),
             ("[spend1,spend1]", Some(vec![r1.clone(), r1.clone()])),
+            // a pointer listed twice, every needed pointer present: the LAST copy alone takes the
+            // whole maximum, so the budget is exceeded whether duplicates are summed (list
+            // semantics) or the last one wins (the ledger's map view of the list)
+            ("[spend1,spend2:1,spend2:mem=max]", Some(vec![r1.clone(), Redeemer { mem: 1, steps: 1, ..r2.clone() }, Redeemer { mem: params::numbers(era).max_mem, ..r2.clone() }])),
+            ("[spend1,spend2:1,spend2:steps=max]", Some(vec![r1.clone(), Redeemer { mem: 1, steps: 1, ..r2.clone() }, Redeemer { steps: params::numbers(era).max_steps, ..r2.clone() }])),
         ];
         for (name, p) in rds {
             if p == base.tx.wits.redeemers {
